@@ -228,6 +228,9 @@ fn main() {
         for (ts, name) in &syntaxes {
             let what = format!("data set ({}) in {}", if with_pixels { "encapsulated pixel data" } else { "native pixel data" }, name);
             let bytes = sweep_write(&mut t, &format!("writing a {}", what), &|s: &mut Sink| obj.write_dataset_with_ts(s, ts).map_err(|e| e.to_string()));
+            // the same through a buffering writer handed over BY VALUE: the call is the last chance to flush it and see the failure
+            let _ = sweep_write(&mut t, &format!("writing (through a BufWriter given by value) a {}", what), &|s: &mut Sink| obj.write_dataset_with_ts(std::io::BufWriter::new(s), ts).map_err(|e| e.to_string()));
+            let _ = sweep_write(&mut t, &format!("writing (write_dataset_with_ts_options, through a BufWriter given by value) a {}", what), &|s: &mut Sink| obj.write_dataset_with_ts_options(std::io::BufWriter::new(s), ts, Default::default()).map_err(|e| e.to_string()));
             if let Some(bytes) = bytes {
                 let layout = match *name { "Implicit VR LE" => Some((0, true, false)), "Explicit VR LE" => Some((0, false, false)), "Explicit VR BE" => Some((0, false, true)), _ => None };
                 sweep_read(&mut t, &format!("reading a {}", what), &bytes, layout, &|src: Source| InMemDicomObject::read_dataset_with_ts(src, ts).map(|_| ()).map_err(|e| e.to_string()));
